@@ -423,6 +423,59 @@ def run(ctx):
                        f'earlier iteration already gave to another label is taken again, so that '
                        f'label ends below its target count', f'{raf.module.relpath}:{n.lineno}')
     ctx.floor('R20f', 'label-assignment sites', n_sites, 2)
+    # ---- R20m: a pass skips a precision only on facts about the CURRENT assignment -----------
+    # the passes rewrite a working copy (new = current.clone()); a test that lets an iteration
+    # leave early (continue / break) and that is computed from the copy's ORIGINAL -- which the
+    # earlier iterations have not updated -- takes "this precision already has its channels" for
+    # granted after a lower precision has claimed some of them: the precision never takes them
+    # back (a channel is demoted, or a count is missed)
+    n_exits = 0
+    for raf in ra_fns:
+        copies = {}          # working copy -> original
+        for n in ast.walk(raf.node):
+            if isinstance(n, ast.Assign) and len(n.targets) == 1 and \
+                    isinstance(n.targets[0], ast.Name) and isinstance(n.value, ast.Call) and \
+                    isinstance(n.value.func, ast.Attribute) and \
+                    n.value.func.attr in ('clone', 'copy', 'detach') and \
+                    isinstance(n.value.func.value, ast.Name):
+                copies[n.targets[0].id] = n.value.func.value.id
+        for loop in [n for n in ast.walk(raf.node) if isinstance(n, ast.For)]:
+            written = {n.targets[0].value.id for n in ast.walk(loop)
+                       if isinstance(n, ast.Assign) and len(n.targets) == 1 and
+                       isinstance(n.targets[0], ast.Subscript) and
+                       isinstance(n.targets[0].value, ast.Name)}
+            stale = {copies[w] for w in written if w in copies}
+            if not stale:
+                continue
+            body_defs = {}
+            for n in ast.walk(loop):
+                if isinstance(n, ast.Assign) and len(n.targets) == 1 and \
+                        isinstance(n.targets[0], ast.Name):
+                    body_defs.setdefault(n.targets[0].id, []).append(n.value)
+            for n in ast.walk(loop):
+                if not (isinstance(n, ast.If) and any(isinstance(x, (ast.Continue, ast.Break))
+                                                      for x in n.body + n.orelse)):
+                    continue
+                n_exits += 1
+                seen, work = set(), [n.test]
+                while work:
+                    e = work.pop()
+                    for x in ast.walk(e):
+                        if isinstance(x, ast.Name) and x.id not in seen:
+                            seen.add(x.id)
+                            work.extend(body_defs.get(x.id, []))
+                hit = sorted(seen & stale)
+                ctx.ob('R20m', f'{raf.name}: early exit "{ast.unparse(n.test)[:60]}" is decided on '
+                       f'the current assignment', not hit,
+                       'the test does not read the original of the working copy' if not hit else
+                       f'the iteration is left early on a test computed from {hit[0]}, the '
+                       f'original that the loop does not update (it rewrites its copy '
+                       f'{sorted(w for w in written if copies.get(w) == hit[0])[0]}): after an '
+                       f'earlier precision has claimed channels of this one, "it already has its '
+                       f'channels" is no longer true, the precision never takes them back, and a '
+                       f'channel ends at a lower bit-width or a target count is missed',
+                       f'{raf.module.relpath}:{n.lineno}')
+    ctx.floor('R20m', 'early exits of the reassignment passes', n_exits, 1)
     # ---- R20k: the shares are channel counts only under hard sampling ------------------------
     # theta_alpha.mean(dim=1) is (channels at the precision) / (channels) only when every column
     # is one-hot: the function must switch the model to hard sampling and run a forward pass
